@@ -28,7 +28,8 @@ type c07Case struct {
 
 var c07Kinds = []string{"code", "at-code", "at-password", "at-cc", "at-refresh", "at-implicit", "at-device", "at-jwtbearer", "jwt-at-code", "rt-code", "rt-password", "rt-refresh", "rt-unlimited",
 	"device-code", "user-code", "par", "bearer-assertion", "client-assertion", "at-as-bearer", "at-password/abandoned-refresh", "at-code/abandoned-redeem"}
-var c07AgesRel = []int{-1000000, -3, -2, 2, 3, 30, 86400}
+var c07AgesRel = []int{-1000000, -10, -3, -2, 2, 3, 10, 30, 3600, 86400}
+var c07AgesDeep = []int{-1000000, -86400, -3600, -600, -60, -10, -5, -4, -3, -2, 2, 3, 4, 5, 10, 30, 60, 600, 3600, 86400, 2592000, 31536000}
 
 // per-client override values (seconds), all distinct
 var c07Override = map[string]int{
@@ -54,8 +55,17 @@ func c07Lifespans() *fosite.ClientLifespanConfig {
 // effective lifetime (seconds) the statement prescribes for kind under source
 func c07Leff(kind, source string) int {
 	def := map[string]int{"code": 600, "at": 3600, "rt": 2592000, "dev": 600, "par": 300}
-	if source == "configured" {
+	switch source {
+	case "configured":
 		def = map[string]int{"code": 90, "at": 500, "rt": 1000, "dev": 600, "par": 300}
+	case "configured-short":
+		def = map[string]int{"code": 4, "at": 6, "rt": 8, "dev": 600, "par": 300}
+	case "configured-long":
+		def = map[string]int{"code": 86400, "at": 200000, "rt": 7776000, "dev": 600, "par": 300}
+	case "session-provided":
+		if kind == "at-implicit" || kind == "at-code/abandoned-redeem" {
+			return 77
+		}
 	}
 	ov := func(field, base string) int {
 		if source == "client-override" {
@@ -98,8 +108,13 @@ func c07Leff(kind, source string) int {
 
 func c07Run(c c07Case, res *WRes) {
 	p := Profile{Session: c.Session}
-	if c.Source == "configured" {
+	switch c.Source {
+	case "configured":
 		p.CodeLifespan, p.ATLifespan, p.RTLifespan = 90, 500, 1000
+	case "configured-short":
+		p.CodeLifespan, p.ATLifespan, p.RTLifespan = 4, 6, 8
+	case "configured-long":
+		p.CodeLifespan, p.ATLifespan, p.RTLifespan = 86400, 200000, 7776000
 	}
 	if c.Kind == "rt-unlimited" {
 		p.RTLifespan = -1
@@ -126,8 +141,14 @@ func c07Run(c c07Case, res *WRes) {
 	leff := c07Leff(c.Kind, c.Source)
 	var present func() (bool, *Obs)
 	advertised := -1.0
+	aopt := AuthzOpts{}
+	if c.Source == "session-provided" {
+		// the application fixes the access token's expiry in the session it hands to the library
+		at := w.Now().Add(77 * time.Second)
+		aopt.Prep = func(s fosite.Session) { s.SetExpiresAt(fosite.AccessToken, at) }
+	}
 	authz := func(rt, scope string) *Obs {
-		return w.Authorize(url.Values{"client_id": {"L"}, "redirect_uri": {"https://L.example/cb"}, "state": {"state-12345678"}, "response_type": {rt}, "scope": {scope}, "nonce": {"nonce-12345678"}}, AuthzOpts{})
+		return w.Authorize(url.Values{"client_id": {"L"}, "redirect_uri": {"https://L.example/cb"}, "state": {"state-12345678"}, "response_type": {rt}, "scope": {scope}, "nonce": {"nonce-12345678"}}, aopt)
 	}
 	redeem := func(code string) *Obs {
 		return w.Token(url.Values{"grant_type": {"authorization_code"}, "code": {code}, "redirect_uri": {"https://L.example/cb"}}, auth)
@@ -195,7 +216,7 @@ func c07Run(c c07Case, res *WRes) {
 		}
 	case "at-code/abandoned-redeem":
 		// hybrid: the authorization endpoint issues an access token; the code is then presented but never answered
-		ao := w.Authorize(url.Values{"client_id": {"L"}, "redirect_uri": {"https://L.example/cb"}, "state": {"state-12345678"}, "response_type": {"code token"}, "scope": {"openid offline a"}, "nonce": {"nonce-12345678"}}, AuthzOpts{})
+		ao := w.Authorize(url.Values{"client_id": {"L"}, "redirect_uri": {"https://L.example/cb"}, "state": {"state-12345678"}, "response_type": {"code token"}, "scope": {"openid offline a"}, "nonce": {"nonce-12345678"}}, aopt)
 		at, code := ao.Param("access_token"), ao.Param("code")
 		if v := ao.Param("expires_in"); v != "" {
 			fmt.Sscan(v, &advertised)
@@ -333,7 +354,15 @@ func c07Run(c c07Case, res *WRes) {
 	if c.Kind == "at-as-bearer" && age > 3500 {
 		return
 	}
-	w.Advance(time.Duration(age) * time.Second)
+	if c.Position == "split" {
+		// the credential ages in two steps with an unrelated grant and refresh by another client in between
+		w.Advance(time.Duration(age/2) * time.Second)
+		uo := w.Token(url.Values{"grant_type": {"password"}, "username": {"peter"}, "password": {"pw-peter"}, "scope": {"offline a"}}, w.AuthFor("B"))
+		w.Token(url.Values{"grant_type": {"refresh_token"}, "refresh_token": {uo.Str("refresh_token")}}, w.AuthFor("B"))
+		w.Advance(time.Duration(age-age/2) * time.Second)
+	} else {
+		w.Advance(time.Duration(age) * time.Second)
+	}
 	ok, o := present()
 	res.Trans++
 	res.class(fmt.Sprintf("%s:%s:honoured=%v", c.Kind, map[bool]string{true: "after-expiry", false: "before-expiry"}[c.AgeRel > 0], ok))
@@ -417,6 +446,8 @@ func c07Table(res *WRes) {
 type c07Job struct {
 	Kind, Source string
 	Sessions     []string
+	Offsets      []int
+	Ages         []int
 }
 
 func init() {
@@ -435,9 +466,9 @@ func init() {
 		if j.Kind == "bearer-assertion" || j.Kind == "client-assertion" {
 			encs = []string{"int", "float", "float-frac"}
 		}
-		for _, off := range []int{0, 400, 600} {
-			for _, pos := range []string{"fresh", "after-history"} {
-				for _, age := range c07AgesRel {
+		for _, off := range j.Offsets {
+			for _, pos := range []string{"fresh", "after-history", "split"} {
+				for _, age := range j.Ages {
 					for _, enc := range encs {
 						for _, sess := range j.Sessions {
 							c := c07Case{Kind: j.Kind, Source: j.Source, OffsetMS: off, Position: pos, AgeRel: age, ExpEnc: enc, Session: sess}
@@ -472,17 +503,25 @@ func init() {
 	registerCheck("C07", "exploration", 120*time.Second, 20*time.Minute, func(r *Run) {
 		var jobs []any
 		jobs = append(jobs, c07Job{Kind: "table"})
+		offsets, ages := []int{0, 400, 600}, c07AgesRel
+		if !r.Quick() {
+			offsets, ages = []int{0, 100, 200, 300, 400, 500, 600, 700, 800, 900, 999}, c07AgesDeep
+		}
+		sources := []string{"default", "configured", "configured-short", "configured-long", "client-override", "session-provided"}
 		for _, k := range c07Kinds {
-			for _, s := range []string{"default", "configured", "client-override"} {
+			for _, s := range sources {
+				if s == "session-provided" && k != "at-implicit" && k != "at-code/abandoned-redeem" {
+					continue
+				}
 				sessions := []string{"", "openid"}
 				if k == "jwt-at-code" {
 					sessions = []string{"", "jwt"}
 				}
-				jobs = append(jobs, c07Job{Kind: k, Source: s, Sessions: sessions})
+				jobs = append(jobs, c07Job{Kind: k, Source: s, Sessions: sessions, Offsets: offsets, Ages: ages})
 			}
 		}
-		r.Bounds = map[string]any{"kinds": c07Kinds, "sources": []string{"server default", "configured value", "per-client override (all 12 fields set to distinct values)"}, "ages_relative_to_expiry_s": c07AgesRel,
-			"issue_offsets_ms": []int{0, 400, 600}, "positions": []string{"fresh", "after an unrelated grant + refresh"}, "assertion_exp_encodings": []string{"int", "float", "float with fraction"},
+		r.Bounds = map[string]any{"kinds": c07Kinds, "sources": []string{"server default", "configured value (90/500/1000 s)", "configured short (4/6/8 s)", "configured long (1 d/200000 s/90 d)", "per-client override (all 12 fields set to distinct values)", "session-provided access-token expiry at the authorization endpoint (implicit, hybrid)"}, "ages_relative_to_expiry_s": ages,
+			"issue_offsets_ms": offsets, "positions": []string{"fresh", "after an unrelated grant + refresh", "aged in two steps around an unrelated grant + refresh"}, "assertion_exp_encodings": []string{"int", "float", "float with fraction"},
 			"session_types": []string{"harness session (OpenID + JWT container)", "openid.DefaultSession", "oauth2.JWTSession"}, "override_table": "12 fields x 7 grant types x 4 token types"}
 		r.Rule = "every (kind, lifetime source, issue offset, history position, age, exp encoding, session type) is minted and presented on a fresh provider under a virtual clock; ages 2 s or more past the expiry instant must be refused, ages 2 s or more before an advertised expiry must be honoured; advertised lifetime within 1 s of the effective one; override table exhaustively"
 		r.Assumptions = []string{"+-1 s around an expiry instant is don't-care (expiries are rounded to seconds)", "all time reads of ory/fosite go through the overlay clock; third-party libraries never read the clock on these paths (a violation would show as a refusal before expiry)"}
